@@ -1,17 +1,38 @@
-/* Nonlinear integer facts used by unit mat_invert.  Each is the contract of a body-less function: in the CBMC checks the
-   call is replaced by the contract (precondition ASSERTED, conclusion assumed); lemmas.py proves every ensures clause
-   from the requires clauses with z3 over mathematical integers (check "lemmas").  GV_MACHINE_BOUND(..) is the stated
-   dimension bound that makes machine arithmetic equal mathematical arithmetic (overflow obligations of CBMC on these
-   very expressions); z3 does not use it. */
+/* Nonlinear integer facts used by unit mat_invert, and the OPAQUE TABLE that keeps them out of the CBMC checks
+   (idiom of units/covmat_proof/cvp_spec.h and units/gkf_covmat/gkc_spec.h).
+
+   Mat::entry(i,j) addresses pentry + i*cols + j.  In the CBMC checks the row start i |-> i*cols of the ONE matrix of the
+   call (cols == mi_tab_cols) is the opaque table mi_rowoff[] (an extern array of unbounded size defined nowhere: CBMC's
+   array theory gives functional consistency only, i.e. an uninterpreted function int -> int), so every contract and
+   invariant that names an element does so as  REP + mi_rowoff[i] + j  and no check but `entry` ever sees the product
+   (measured: the in-bounds obligation of pentry + i*col_ + j, 231 s on MiniSat for ONE access; two elements "are the same
+   one if their indices are equal" needs the equality of two 32-bit multiplier circuits).  The table is tied to the real
+   index expression once, in check `entry`, by the lemma below; lemmas.py (cpp on this header WITHOUT -DMI_OPAQUE, so
+   that MI_ROWOFF expands to the closed form i*cols) proves with z3 over mathematical integers that the closed form is
+   such a table.  GV_MACHINE_BOUND(..) is the stated dimension bound that makes machine arithmetic equal mathematical
+   arithmetic (CBMC overflow obligations on these very expressions); z3 does not use it. */
 #ifndef MI_LEMMAS_H
 #define MI_LEMMAS_H
+#ifndef GV_MACHINE_BOUND
+#define GV_MACHINE_BOUND(x) (x)
+#endif
+#ifdef MI_OPAQUE
+extern int mi_rowoff[__CPROVER_constant_infinity_uint];
+extern int mi_tab_cols;
+#define MI_TAB_FOR(cols) ((cols) == mi_tab_cols)
+#define MI_ROWOFF(cols, i) (mi_rowoff[i])
+#else
+#define MI_TAB_FOR(cols) (0 == 0)
+#define MI_ROWOFF(cols, i) ((i) * (cols))
+#endif
 #pragma CPROVER check push
 #pragma CPROVER check enable "signed-overflow"
-/* Mat::entry(i,j), 0-based row-major: the offset i*cols + j lies inside the rows*cols elements */
+/* row-major, 0-based: row i starts at i*cols, and the offset i*cols + j lies inside the rows*cols elements */
 void mi_lemma_entry_bounds(int rows, int cols, int i, int j)
 __CPROVER_requires(GV_MACHINE_BOUND(rows <= 32768 && cols <= 32768))
-__CPROVER_requires(0 <= i && i < rows && 0 <= j && j < cols)
+__CPROVER_requires(0 <= i && i < rows && 0 <= j && j < cols && MI_TAB_FOR(cols))
 __CPROVER_assigns()
-__CPROVER_ensures(0 <= i * cols + j && i * cols + j < rows * cols);
+__CPROVER_ensures(MI_ROWOFF(cols, i) == i * cols)
+__CPROVER_ensures(0 <= i * cols && 0 <= i * cols + j && i * cols + j < rows * cols);
 #pragma CPROVER check pop
 #endif
